@@ -251,6 +251,16 @@ func runC13(cx *Ctx, r *Report) {
 	}
 	// ------------------------------------------------------------ Q1 dequeue per entry
 	cx.c13DequeueRule(r, get, nil)
+	// an expired service batch is settled at its one look: skipped only when already completed
+	// (the rule of C08; what is skipped stays in the active-request index for good)
+	{
+		sub := newReport("C13", r.Tier)
+		perS := collectEvents(cx, sub, "service", "abci")
+		refund := pick(perS["EndBlock"], "bank.SendCoinsFromModuleToAccount", func(x hev) bool { return x.ev.Args[1].LooseString() == `"service_request_account"` })
+		if len(refund) == 1 {
+			expirySettledConverse(r, refund[0], refund[0].ev.Pos(cx))
+		}
+	}
 	// other iterations inside block handlers (informational)
 	for _, e := range cx.EntriesOf("abci") {
 		cw := get(e)
